@@ -245,7 +245,7 @@ def workload(ctx, repo):
     # deterministic clamp cases (independent of stride / seed)
     if ctx.worker == 0:
         for mode in R.MODES:
-            for y in (2000, 2004, 2015, 2020, 1999, 2003):
+            for y in (2000, 2004, 2015, 2020, 1999, 2003, 2096, 1896, 2104):
                 y0 = R.days_before_year(mode, y)
                 L = R.year_len(mode, y)
                 ws = R.week_start(mode, y + 1)
@@ -253,6 +253,9 @@ def workload(ctx, repo):
                     for rep in gen.REPS:
                         for dkw in ({"years": 1}, {"years": -1},
                                     {"years": 3}, {"years": -3},
+                                    {"years": 4}, {"years": -4},
+                                    {"years": 8}, {"years": 100},
+                                    {"years": -200}, {"years": 400},
                                     {"months": 1}, {"months": -1},
                                     {"months": 13, "years": -2},
                                     {"months": -1, "years": 1, "days": 1}):
